@@ -9,7 +9,7 @@ gvars == <<st, sp, cn, xa, gate, stage>>
 Steps == (Lo..Hi) \ {0}
 XAxes == {[start |-> Lo, step |-> 1, count |-> 2], [start |-> Hi, step |-> -1, count |-> 3], [start |-> -1, step |-> Hi \div 2, count |-> 2],
           [start |-> 0, step |-> 3, count |-> 4], [start |-> Hi - 4, step |-> 2, count |-> 3]}
-Gates == {<<p16, p21, dz, irr>> : p16 \in BOOLEAN, p21 \in BOOLEAN, dz \in {1, 999, 1000, 1001, 4000, 65535}, irr \in BOOLEAN} 
+Gates == {<<p16, p21, dz, irr>> : p16 \in BOOLEAN, p21 \in BOOLEAN, dz \in {1, 125, 999, 1000, 1001, 4000, 65535}, irr \in BOOLEAN} 
 Init == st \in Lo..Hi /\ sp = 0 /\ cn = 0 /\ xa \in XAxes /\ gate \in Gates /\ stage = 0
 Next == \/ stage = 0 /\ sp' \in Steps /\ stage' = 1 /\ UNCHANGED <<st, cn, xa, gate>>
         \/ stage = 1 /\ cn' \in 2..MaxCount /\ stage' = 2 /\ UNCHANGED <<st, sp, xa, gate>>
@@ -22,4 +22,5 @@ PPreserved == Ready => Preserved(G)
 PCrop == (Ready /\ G.ntr = cn * xa.count) =>
             \A i0 \in 0..(cn - 1) : \A z0 \in {0, 4} :
                 CropPreserves([G EXCEPT !.nz = 8], [i0 |-> i0, i1 |-> cn, x0 |-> 1, x1 |-> xa.count, z0 |-> z0, z1 |-> 8])
+PCrop2 == (Ready /\ G.ntr = cn * xa.count /\ (gate[1] \/ gate[2])) => \A z1 \in {0, 4} : \A z2 \in {0, 4, 8} : Crop2Preserves([G EXCEPT !.nz = 16], z1, z2)
 =============================================================================
